@@ -37,6 +37,9 @@ def check_controller(chk, ix):
     if start is None or stop is None:
         raise AnalysisError("anchor missing: CaptureController.start_capture/stop_capture")
     seqs = [s for n in (1, 2, 3) for s in itertools.product(("start", "stop"), repeat=n)]
+    # "user": the step (or hook) that runs between start and stop redirects sys.stdout / sys.stderr itself and does not put
+    # them back (it failed on the way): stop_capture still restores the streams it took away
+    seqs += [("start", "user", "stop"), ("start", "user", "stop", "start", "stop")]
     for out_on in (True, False):
         for err_on in (True, False):
             for seq in seqs:
@@ -56,8 +59,18 @@ def check_controller(chk, ix):
                 cur = [st]
                 failed = None
                 started = False
+                foreign = st.alloc(HObj("Stream", {}, label="stream installed by user code"))
+                user_left = False
                 for i, op in enumerate(seq):
                     nxt = []
+                    if op == "user":
+                        for s in cur:
+                            s.ghost["@g:sys.stdout"] = foreign
+                            s.ghost["@g:sys.stderr"] = foreign
+                        user_left = True
+                        continue
+                    if op == "stop" and user_left:
+                        user_left = "restored"
                     for s in cur:
                         for (s2, k, v) in it.call_function(s, start if op == "start" else stop, [], {}, None, self_val=ctl):
                             if k != "val":
@@ -78,6 +91,10 @@ def check_controller(chk, ix):
                 o, e = s.ghost["@g:sys.stdout"], s.ghost["@g:sys.stderr"]
                 want_o = cap_out if (started and out_on) else real_out
                 want_e = cap_err if (started and err_on) else real_err
+                if user_left and not started:
+                    # a stream the controller never took away stays what user code made of it
+                    want_o = real_out if out_on else foreign
+                    want_e = real_err if err_on else foreign
                 lab = lambda r: s.obj(r).label if isinstance(r, Ref) else repr(r)
                 if o == want_o and e == want_e:
                     chk.ok("K2", {"switches": {"stdout": out_on, "stderr": err_on}, "calls": list(seq),
@@ -308,11 +325,15 @@ def check_captured_switches(chk, ix):
         st.frames = []
         cfg = st.alloc(HObj("ConfigStub", {"stdout_capture": out_on, "stderr_capture": err_on, "log_capture": log_on}, label="config"))
         bufs = {n: st.alloc(HObj("BufTok", {"content": n.upper()}, label=n)) for n in ("out", "err", "log")}
-        ctl = st.alloc(HObj(cc, {"config": cfg, "stdout_capture": bufs["out"], "stderr_capture": bufs["err"], "log_capture": bufs["log"],
+        # as setup_capture() leaves them: a buffer exists exactly for the streams that are captured
+        ctl = st.alloc(HObj(cc, {"config": cfg, "stdout_capture": bufs["out"] if out_on else None, "stderr_capture": bufs["err"] if err_on else None,
+                                 "log_capture": bufs["log"] if log_on else None,
                                  "old_stdout": None, "old_stderr": None}, label="controller"))
         outs = it.call_function(st, prop, [], {}, None, self_val=ctl)
         chk.absorb(it)
         chk.instance("K8")
+        if len(got) == 1 and len(got[0]) < 3:
+            got[0] = tuple(got[0]) + (None,) * (3 - len(got[0]))        # Captured(stdout=None, stderr=None, log_output=None)
         if len(outs) != 1 or outs[0][1] != "val" or len(got) != 1 or len(got[0]) != 3:
             raise AnalysisError("CaptureController.captured not evaluable: %r / %r" % ([(k, v) for _, k, v in outs][:3], got))
         want = ("OUT" if out_on else None, "ERR" if err_on else None, "LOG" if log_on else None)
@@ -323,3 +344,44 @@ def check_captured_switches(chk, ix):
                              "with stdout_capture=%s, stderr_capture=%s, log_capture=%s the controller reports %r as captured; expected %r "
                              "(each stream is reported exactly when its own switch is on: otherwise swapped-away output is lost)" % (
                                  out_on, err_on, log_on, got[0], want), file=prop.file, line=prop.lineno))
+
+
+
+WHAT["K9"] = "the log capture keeps every record of the scenario until the scenario ends: reaching the handler's nominal capacity (flush) drops nothing"
+
+
+def check_flush_keeps_records(chk, ix):
+    """K9: LoggingCapture.flush evaluated on a buffer that holds more records than the capacity."""
+    chk.rule("K9", WHAT["K9"])
+    lc = ix.cls("behave.log_capture:LoggingCapture")
+    f = lc.lookup("flush")
+    if f is None:
+        # inherited from logging.handlers.BufferingHandler: its flush() empties the buffer
+        chk.instance("K9")
+        chk.fail(Finding("K9", "behave.log_capture:LoggingCapture", "flush not overridden",
+                         "LoggingCapture does not override flush(): BufferingHandler.flush() empties the buffer whenever the capacity is reached - "
+                         "records of a failing scenario are lost", file=lc.file if hasattr(lc, "file") else "behave/log_capture.py", line=1))
+        return
+    for n_records, capacity in ((5, 2), (3, 3), (1000, 10)):
+        it = Interp(ix, name="LoggingCapture.flush")
+        it.int_sat = 100000
+        it.list_cap = 100000
+        st = State()
+        st.frames = []
+        buf = st.alloc(HObj("list", kind="list", items=["record%d" % i for i in range(n_records)], label="buffer"))
+        me = st.alloc(HObj(lc, {"buffer": buf, "capacity": capacity}, label="log capture"))
+        outs = it.call_function(st, f, [], {}, None, self_val=me)
+        chk.absorb(it)
+        chk.instance("K9")
+        if len(outs) != 1 or outs[0][1] != "val":
+            raise AnalysisError("LoggingCapture.flush not evaluable: %r" % [(k, v) for _, k, v in outs][:3])
+        s1 = outs[0][0]
+        b2 = s1.obj(me).fields.get("buffer")
+        items = s1.obj(b2).items if isinstance(b2, Ref) else None
+        if items is not None and len(items) == n_records:
+            chk.ok("K9", {"records": n_records, "capacity": capacity, "after flush()": len(items)}, nontrivial_key=(n_records, capacity))
+        else:
+            chk.fail(Finding("K9", f.fullname, "%d records, capacity %d -> %s" % (n_records, capacity, len(items) if items is not None else "?"),
+                             "flush() on a buffer of %d records (capacity %d) leaves %s: a scenario that logs more than the capacity loses records from "
+                             "the report of its failing step" % (n_records, capacity, "%d records" % len(items) if items is not None else "an unknown buffer"),
+                             file=f.file, line=f.lineno, stmt="def flush"))
